@@ -1,0 +1,8 @@
+//go:build verif
+
+package watcher
+
+import "github.com/a-h/templ/internal/skipdir"
+
+// VerifShouldSkip exposes internal/skipdir.ShouldSkip (the function WalkFiles and Add call) to the C15 harness.
+func VerifShouldSkip(path string) bool { return skipdir.ShouldSkip(path) }
